@@ -1,7 +1,7 @@
 #!/bin/bash
 # tools/benign-all.sh [patch-dir-names...]: run EVERY property's quick check against every stored property-preserving change
 # (benign/<ID>-K/patch.diff), applied to a scratch copy of the base the changes were written against
-# (BENIGN_BASE, default /repo). Expect exit 0 everywhere; anything else is listed for triage. Writes benign/CROSS.md.
+# (meta.json base_commit, exported from /repo's history; BENIGN_BASE=<dir> overrides). Expect exit 0 everywhere; anything else is listed for triage. Writes benign/CROSS.md.
 cd /verif
 export GOFLAGS=-mod=mod GOPROXY=off GOSUMDB=off GOTOOLCHAIN=local
 names="$@"; [ -n "$names" ] || names=$(ls benign | grep -E '^C[0-9]+-' | sort -V)
@@ -10,7 +10,10 @@ export checks
 one() {
   name=$1
   work=$(mktemp -d /tmp/ba-XXXXXX)
-  rsync -a --exclude .git --exclude _deliver ${BENIGN_BASE:-/repo}/ $work/repo/
+  # the base is the commit the change was written against (meta.json base_commit), exported from /repo's history;
+  # BENIGN_BASE=<dir> uses a directory instead (e.g. /repo itself, to try the change on the current tree)
+  if [ -n "$BENIGN_BASE" ]; then rsync -a --exclude .git --exclude _deliver $BENIGN_BASE/ $work/repo/
+  else bc=$(python3 -c "import json;print(json.load(open('/verif/benign/$name/meta.json'))['base_commit'])"); mkdir -p $work/repo; git -C /repo archive $bc | tar -x -C $work/repo; fi
   if ! (cd $work/repo && git apply /verif/benign/$name/patch.diff 2>/dev/null); then echo "$name does-not-apply"; rm -rf $work; return; fi
   line="$name"
   for c in $checks; do
